@@ -288,6 +288,24 @@ func (c *V2) Do(op Op) (out Outcome) {
 		if op.Rev {
 			in.ScanIndexForward = aws.Bool(false)
 		}
+		if op.Paginate {
+			pg := v2ddb.NewQueryPaginator(c.C, in)
+			o := Outcome{Class: ClsOK}
+			for pg.HasMorePages() {
+				if int(o.Count) >= op.MaxPages {
+					o.Msg = "paginator still has pages after MaxPages"
+					o.LastKeyEmpty = true
+					return o
+				}
+				page, err := pg.NextPage(ctx)
+				if err != nil {
+					return fin(err)
+				}
+				o.Count++
+				o.Items = append(o.Items, v2Items(page.Items)...)
+			}
+			return o
+		}
 		res, err := c.C.Query(ctx, in)
 		o := fin(err)
 		if err == nil {
@@ -317,6 +335,24 @@ func (c *V2) Do(op Op) (out Outcome) {
 		}
 		if op.TotalSegments > 0 {
 			in.Segment, in.TotalSegments = aws.Int32(int32(op.Segment)), aws.Int32(int32(op.TotalSegments))
+		}
+		if op.Paginate {
+			pg := v2ddb.NewScanPaginator(c.C, in)
+			o := Outcome{Class: ClsOK}
+			for pg.HasMorePages() {
+				if int(o.Count) >= op.MaxPages {
+					o.Msg = "paginator still has pages after MaxPages"
+					o.LastKeyEmpty = true
+					return o
+				}
+				page, err := pg.NextPage(ctx)
+				if err != nil {
+					return fin(err)
+				}
+				o.Count++
+				o.Items = append(o.Items, v2Items(page.Items)...)
+			}
+			return o
 		}
 		res, err := c.C.Scan(ctx, in)
 		o := fin(err)
